@@ -194,6 +194,8 @@ func (p *peerScript) hook(c *memConn, b []byte) (int, error) {
 	switch react {
 	case "cer:S", "cer:F", "cer:M", "cer:A", "cer:U":
 		c.deliver(ceaFor(react[4:], hbh, e2e))
+	case "cer:P": // an application answer instead of a CEA: must not reach the application before the handshake
+		c.deliver(simpleMsg(272, 0, 4, 700+hbh%7, 700, diam.NewAVP(268, 0x40, 0, datatype.Unsigned32(2001))))
 	case "cer:D":
 		c.peerEOF()
 	case "dwr:A": // answer at once; the reader and dwr() race for who is first
@@ -297,6 +299,9 @@ func execDial(toks []string) string {
 		cer0 = readOne(ps.cers[0])
 	}
 	ps.mu.Unlock()
+	hmu.Lock()
+	pre := handled
+	hmu.Unlock()
 	class := classifyCEAErr(out.err)
 	if out.err == nil && out.c == nil {
 		class = "nilconn"
@@ -325,14 +330,14 @@ func execDial(toks []string) string {
 			st = "closed"
 		}
 		hmu.Lock()
-		post = fmt.Sprintf("%s,%d/%d,%s", st, handled, nq, metaSeen)
+		post = fmt.Sprintf("%s,%d/%d,%s", st, handled-pre, nq, metaSeen)
 		hmu.Unlock()
 		if nq == 0 {
 			post = fmt.Sprintf("%s,0/0,-", st)
 		}
 	}
 	mc.Close()
-	return fmt.Sprintf("out=%s cers=%d same=%d gap=%s closed=%d post=%s cer=%s", class, ncer, same, gap, closed, post, cer0)
+	return fmt.Sprintf("out=%s cers=%d same=%d gap=%s closed=%d pre=%d post=%s cer=%s", class, ncer, same, gap, closed, pre, post, cer0)
 }
 
 func execWD(toks []string) string {
@@ -455,12 +460,12 @@ func genSMClient(r *RNG, n int, op string, emit func(string)) {
 		rec = func(R int, beh []string) {
 			if len(beh) > 0 {
 				last := beh[len(beh)-1]
-				if last != "N" || len(beh) == R+1 {
+				if (last != "N" && last != "P") || len(beh) == R+1 {
 					emit(fmt.Sprintf("smclient dial r=%d cfg=%d beh=%s post=%s wf=0", R, len(beh)%4, strings.Join(beh, "."), []string{"-", "S", "F.Q", "Q.S.Q", "M.U.A.Q"}[len(beh)%5]))
 					return
 				}
 			}
-			for _, b := range []string{"S", "F", "M", "A", "U", "N", "D"} {
+			for _, b := range []string{"S", "F", "M", "A", "U", "N", "D", "P"} {
 				rec(R, append(append([]string(nil), beh...), b))
 			}
 		}
@@ -479,9 +484,9 @@ func genSMClient(r *RNG, n int, op string, emit func(string)) {
 			R := r.Intn(4)
 			var beh []string
 			for k := 0; k < R+1; k++ {
-				b := []string{"N", "N", "N", "S", "S", "F", "M", "A", "U", "D"}[r.Intn(10)]
+				b := []string{"N", "N", "P", "S", "S", "F", "M", "A", "U", "D", "P"}[r.Intn(11)]
 				beh = append(beh, b)
-				if b != "N" {
+				if b != "N" && b != "P" {
 					break
 				}
 			}
